@@ -299,6 +299,7 @@ class Ex:
         self.obl = []
         self.counter = itertools.count()
         self.assumptions_used = set()
+        self.lengths = []          # symbolic lengths of sequences cut by loop invariants (used to look for small counter-models)
         self.effects = []  # FS effect trace: (label, state, pc-snapshot)
         self.ghost = {}  # free-form ghost state for theories (fs, heap, ...)
         self.cover = []  # labels of reached postcondition points
@@ -419,6 +420,58 @@ def solve(pc, goal, timeout_ms=10000, seed=0):
         return "sat", s.model(), dt
     if r == z3.unsat:
         return "unsat", None, dt
+    return "unknown", None, dt
+
+
+class TextModel:
+    """a counter-model obtained through z3's SMT-LIB front end (text of (get-model)); no term evaluation"""
+
+    def __init__(self, text):
+        self.text = text
+
+    def __str__(self):
+        return self.text
+
+    def sexpr(self):
+        return self.text
+
+
+def solve_frontend(pc, goal, timeout_ms=5000, extra=()):
+    """Same query through z3's SMT-LIB2 front end in a fresh context.  Observed on this image (z3 5.1.0): the front end's solver set-up
+    finds finite models of quantified queries that the API solver object leaves `unknown`; verdicts have the same standing."""
+    src = smt2_of(list(pc) + list(extra), goal).replace("(check-sat)", "")
+    src = f"(set-option :timeout {int(timeout_ms)})\n" + src + "\n(check-sat)\n"
+    t = time.time()
+    ctx = z3.Context()
+    timer = threading.Timer(timeout_ms / 1000.0 + 2.0, lambda: ctx.interrupt())
+    timer.daemon = True
+    timer.start()
+    try:
+        out = z3.Z3_eval_smtlib2_string(ctx.ref(), src).strip()
+        if out.startswith("sat"):
+            mt = z3.Z3_eval_smtlib2_string(ctx.ref(), "(get-model)")
+            return "sat", TextModel(mt), time.time() - t
+        if out.startswith("unsat"):
+            return "unsat", None, time.time() - t
+    except z3.Z3Exception:
+        pass
+    finally:
+        timer.cancel()
+    return "unknown", None, time.time() - t
+
+
+def refute_small(pc, goal, lengths, timeout_ms=3000):
+    """Counter-model search in a strengthened path condition: every cut sequence is given length 0, then 1, then 2.
+    Strengthening the hypotheses can only lose counter-models, so a `sat` here is a genuine counter-model of pc |= goal;
+    anything else leaves the verdict unknown."""
+    dt = 0.0
+    if not lengths:
+        return "unknown", None, dt
+    for k in (0, 1, 2):
+        v, m, t = solve_frontend(pc, goal, timeout_ms, extra=[n == k for n in lengths])
+        dt += t
+        if v == "sat":
+            return v, m, dt
     return "unknown", None, dt
 
 
